@@ -39,12 +39,15 @@ def rand_script(rng, err_p=0.25):
     return scen.script(xs, en)
 
 
-def rand_pipe(rng, source, second=None):
+def rand_pipe(rng, source, second=None, third=None):
     d = rng.choice([1, 1, 2, 3])
     p = scen.rand_chain(rng, source, rng.randrange(0, d + 1), names=[x for x in scen.SINGLE_NAMES if x not in ("retry", "retry_when")])
     if second is not None and rng.random() < 0.35:
         nm = rng.choice(["merge", "concat", "zip", "amb", "take_until", "skip_until", "combine_latest", "sequence_equal", "switch_on_next"])
-        p = scen.multi_op(rng, nm, p, [second])
+        others = [second]
+        if third is not None and nm in ("merge", "concat", "zip", "amb", "combine_latest") and rng.random() < 0.5:
+            others = [second, third]        # (two follow-up sources: an operator that keeps them in a queue has an order to get wrong)
+        p = scen.multi_op(rng, nm, p, others)
     p = scen.rand_chain(rng, p, rng.randrange(0, 2), names=[x for x in scen.SINGLE_NAMES if x not in ("retry", "retry_when")])
     return p
 
@@ -83,9 +86,13 @@ def generate(rng, tier, focus):
         nsub = rng.choice([2, 2, 3])
         s0 = [rand_script(rng) for _ in range(nsub)]
         s1 = [rand_script(rng, 0.1)] * nsub      # the second source may be subscribed lazily (concat, flat_map ...): its attempts are indistinguishable
-        pipe = rand_pipe(rng, ["cold", 0], ["cold", 1])
+        pipe = rand_pipe(rng, ["cold", 0], ["cold", 1], ["cold", 2])
+        directed = rng.random() < 0.15
+        if directed:        # a multi-source operator over two follow-up sources, the first subscription cut short below
+            pipe = scen.multi_op(rng, rng.choice(["concat", "concat", "merge", "zip", "amb", "combine_latest"]), ["cold", 0], [["cold", 1], ["cold", 2]])
         two = "(cold 1)" in sx.dumps(pipe)
-        nested = rng.random() < 0.3
+        s2 = [rand_script(rng, 0.1)] * 3
+        nested = rng.random() < 0.3 and not directed
         ridx = rng.randrange(0, 3)
         if nested:
             s1 = [s1[0]] * len(s1)      # nested subscriptions interleave their attempts on the second source: make them indistinguishable
@@ -94,10 +101,18 @@ def generate(rng, tier, focus):
             nsub = 2
         else:
             acts = [sub(k, ["ref", 0]) for k in range(nsub)]
-        srcs = [src(s0[:nsub], False), src(s1[:nsub], False)]
-        cases.append((scn(srcs=srcs, handles=nsub, script_=acts, defs=[pipe]), {"k": "nested" if nested else "sequential", "g": g, "role": "combined", "n": nsub, "ridx": ridx if nested else -1}))
+        # an earlier subscription CUT SHORT downstream (take(k) over the shared value) before the next one starts: whatever the
+        # operators of the shared value still hold for it must not leak into the later subscriptions
+        cut = None
+        if not nested and (directed or rng.random() < 0.4):
+            cut = ["op", "take", [rng.choice([1, 2, 3])], ["ref", 0]]
+            acts[0] = sub(0, cut)
+            s0 = [s0[0]] * len(s0)      # (a subscription cut short may never get to subscribe a source: attempts must be indistinguishable)
+            s1 = [s1[0]] * len(s1)
+        srcs = [src(s0[:nsub], False), src(s1[:nsub], False), src(s2[:nsub], False)]
+        cases.append((scn(srcs=srcs, handles=nsub, script_=acts, defs=[pipe]), {"k": "nested" if nested else ("sequential-cut" if cut else "sequential"), "g": g, "role": "combined", "n": nsub, "ridx": ridx if nested else -1}))
         for k in range(nsub):
-            cases.append((scn(srcs=[src([s0[k]], False), src([s1[k]], False)], handles=1, script_=[sub(0, ["ref", 0])], defs=[pipe]),
+            cases.append((scn(srcs=[src([s0[k]], False), src([s1[k]], False), src([s2[k]], False)], handles=1, script_=[sub(0, cut if (cut and k == 0) else ["ref", 0])], defs=[pipe]),
                           {"k": "solitary", "g": g, "role": "solo", "who": k}))
     # (C) hot: second subscription while the first is mid-stream
     for _ in range(1500 if thorough else 250):
